@@ -166,3 +166,109 @@ def ctor_fields(chk, rule, rel, cls, fields, why):
         chk.ob(rule, f"{rel}:{cls}.__init__", f"field-is-its-parameter[{f}]", ok,
                f"`{cls}(…, {f}=v)` makes `obj.{f}` equal to v: one unconditional store of the parameter into the attribute ({why})",
                node=sts[0][2] if sts else fn, strength="N", stores=[norm(s0)[:80] for t, v, s0 in sts])
+
+
+def mean_facts(chk):
+    """What Assorter.mean computes, decided for the two spellings a maintainer would use:
+         A.  np.mean([self.assort(c) for c in cvr_list if filtr(c)])                         (filter idiom in the method)
+         B.  self.sum(cvr_list, use_style=use_style) / <number of cards passing the same filter>   (Assorter.sum being the np.sum
+             over the same filtered comprehension)
+       -> dict(filter=<cond over 'c'> or None, over_filtered=bool, node, detail).  Anything else is *decided* as "not the mean over
+       the filtered cards" (filter None / over_filtered False), not given up on."""
+    import ast as _ast
+    from .symx import Tx as _Tx
+    mean = chk.fn(REL, "Assorter.mean", canonical=True)
+    out = dict(filter=None, over_filtered=False, node=mean, detail={})
+    rets = [n for n in walk_local(mean) if isinstance(n, _ast.Return)]
+    if len(rets) != 1:
+        return out
+    out["node"] = rets[0]
+    v = rets[0].value
+
+    def filtered_comp(fn, call_names, elt_of):
+        """a call np.<agg>(comp) with comp = [<elt> for c in cvr_list if filtr(c)] and the filter idiom in fn -> cond or None"""
+        f, _ = style_filter(fn)
+        if f is None:
+            return None, None
+        return f, f.name
+
+    if isinstance(v, _ast.Call) and norm(v.func) in ("np.mean", "numpy.mean"):
+        f, _ = style_filter(mean)
+        cs = comps(v)
+        if f is not None and len(cs) == 1 and len(cs[0].generators) == 1:
+            elt, tgt, it, ifs = single_gen(cs[0])
+            out["detail"] = dict(elt=norm(elt), iter=norm(it), ifs=[norm(i) for i in ifs])
+            out["filter"] = f("c", lambda: _Tx())
+            out["over_filtered"] = norm(elt) == f"self.assort({norm(tgt)})" and norm(it) == "cvr_list" and len(ifs) == 1 \
+                and norm(ifs[0]) == f"{f.name}({norm(tgt)})"
+        return out
+    if isinstance(v, _ast.BinOp) and isinstance(v.op, _ast.Div) and isinstance(v.left, _ast.Call) and norm(v.left.func) == "self.sum":
+        # numerator: Assorter.sum over the filtered cards
+        sm = chk.fn(REL, "Assorter.sum", canonical=True)
+        fs, _ = style_filter(sm)
+        srets = [n for n in walk_local(sm) if isinstance(n, _ast.Return)]
+        num_ok = False
+        if fs is not None and len(srets) == 1 and isinstance(srets[0].value, _ast.Call) and norm(srets[0].value.func) in ("np.sum", "numpy.sum", "sum"):
+            cs = comps(srets[0].value)
+            if len(cs) == 1 and len(cs[0].generators) == 1:
+                elt, tgt, it, ifs = single_gen(cs[0])
+                num_ok = norm(elt) == f"self.assort({norm(tgt)})" and norm(it) == "cvr_list" and len(ifs) == 1 and norm(ifs[0]) == f"{fs.name}({norm(tgt)})"
+        kw = {k.arg: norm(k.value) for k in v.left.keywords}
+        args = [norm(a) for a in v.left.args]
+        passes = (args[:1] == ["cvr_list"]) and (kw.get("use_style") == "use_style" or args[1:2] == ["use_style"])
+        # denominator: the number of cards passing the same filter (in mean itself)
+        fm, _ = style_filter(mean)
+        den_ok = False
+        from .canon import expand_locals as _xl
+        d = _xl(v.right, mean)
+        if fm is not None:
+            if isinstance(d, _ast.Call) and norm(d.func) == "len" and len(d.args) == 1 and isinstance(d.args[0], _ast.ListComp):
+                elt, tgt, it, ifs = single_gen(d.args[0])
+                den_ok = norm(it) == "cvr_list" and len(ifs) == 1 and norm(ifs[0]) == f"{fm.name}({norm(tgt)})"
+            if isinstance(d, _ast.Call) and norm(d.func) in ("np.sum", "sum") and len(d.args) == 1 and isinstance(d.args[0], (_ast.ListComp, _ast.GeneratorExp)):
+                elt, tgt, it, ifs = single_gen(d.args[0])
+                den_ok = norm(it) == "cvr_list" and ((not ifs and norm(elt) == f"{fm.name}({norm(tgt)})") or
+                                                     (len(ifs) == 1 and norm(ifs[0]) == f"{fm.name}({norm(tgt)})" and norm(elt) == "1"))
+            out["filter"] = fm("c", lambda: _Tx())
+        elif fs is not None:
+            out["filter"] = fs("c", lambda: _Tx())
+        same = fs is not None and fm is not None and cond_equiv(fs("c", lambda: _Tx()), fm("c", lambda: _Tx()))[0]
+        out["detail"] = dict(numerator=norm(v.left), denominator=norm(d), sum_over_filtered=num_ok, count_over_filtered=den_ok,
+                             numerator_and_denominator_use_the_same_filter=same)
+        out["over_filtered"] = num_ok and passes and den_ok and same
+        return out
+    out["detail"] = dict(returned=norm(v)[:160])
+    return out
+
+
+def same_name_arguments(chk, rule, rel, caller_q, callee_q, what):
+    """Argument discipline between a wrapper and the function it delegates to: every argument of the call that is a plain name
+    equal to one of the callee's parameter names must be bound to *that* parameter (positionally or by keyword), and every
+    parameter the two functions share is handed on.  Swapped positional arguments of the same type compile and run."""
+    import ast as _ast
+    caller = chk.fn(rel, caller_q)
+    callee = chk.fn(rel, callee_q)
+    cps = [a.arg for a in callee.args.args]
+    if cps and cps[0] in ("self", "cls"):
+        cps = cps[1:]
+    short = callee_q.split(".")[-1]
+    calls = [c for c in _ast.walk(caller) if isinstance(c, _ast.Call) and norm(c.func).split(".")[-1] == short]
+    problems = []
+    shared = set(cps) & {a.arg for a in caller.args.args}
+    for c in calls:
+        bound = {}
+        for k, a in enumerate(c.args):
+            if k < len(cps):
+                bound[cps[k]] = a
+        for kw in c.keywords:
+            if kw.arg:
+                bound[kw.arg] = kw.value
+        for p_, a in bound.items():
+            if isinstance(a, _ast.Name) and a.id in cps and a.id != p_:
+                problems.append(f"`{a.id}` is passed as `{p_}`")
+        for p_ in sorted(shared):
+            if p_ not in bound:
+                problems.append(f"`{p_}` is not handed on")
+    chk.ob(rule, f"{rel}:{caller_q}", f"arguments-reach-their-namesakes[{short}]", bool(calls) and not problems,
+           f"{what}: each option of {caller_q} is passed to the parameter of {callee_q} with the same name", node=calls[0] if calls else caller,
+           strength="N", problems=problems, calls=len(calls))
